@@ -121,3 +121,38 @@ Proof.
   repeat split; try assumption. intros k Hk. rewrite iter_ok by exact H. apply G, Hk.
 Qed.
 Print Assumptions C09_cpir_cpdr_whole_operation.
+
+(* ---- OTIR / OTDR and INIR / INDR as whole operations, for the GENERATED Step.  The counter is B alone (n = B, 256 for 0),
+   the port is C.  OTIR/OTDR: the n memory bytes at HL, HL+-1, ... go to port C in that order (sent), nothing else is
+   written to a port, memory is untouched.  INIR/INDR: the next n bytes the device supplies go to memory at HL, HL+-1, ...
+   (fill) and are consumed from the device (skipn).  B ends 0, HL moved by n, PC stays on the instruction until the last
+   element and ends behind it. ---- *)
+Theorem C09_otir_otdr_whole_operation : forall (dec : bool) (n : nat) cpu, WF cpu -> on_ioxr (op2o dec) cpu ->
+  1 <= Z.of_nat n <= 256 -> g_BC_Hi cpu = u8 (Z.of_nat n) ->
+  let cpu' := iter n cpu in
+  regw (g_HL cpu') = biter dec n (regw (g_HL cpu)) /\ g_BC_Hi cpu' = 0 /\ g_BC_Lo cpu' = g_BC_Lo cpu /\
+  ram (g_W cpu') = ram (g_W cpu) /\
+  couts (trace (g_W cpu')) = rev (map (fun v => (g_BC_Lo cpu, v)) (sent dec n (ram (g_W cpu)) (regw (g_HL cpu)))) ++ couts (trace (g_W cpu)) /\
+  g_PC cpu' = u16 (g_PC cpu + 2) /\
+  (forall k, (k < n)%nat -> g_PC (iter k cpu) = g_PC cpu).
+Proof.
+  intros dec n cpu H Hon Hn Hb. cbv zeta. rewrite iter_ok by exact H.
+  destruct (otxr_run impl_unspec dec n cpu H Hon Hn Hb) as (A & B & C & D & E & F & G).
+  repeat split; try assumption. intros k Hk. rewrite iter_ok by exact H. apply G, Hk.
+Qed.
+Print Assumptions C09_otir_otdr_whole_operation.
+Theorem C09_inir_indr_whole_operation : forall (dec : bool) (n : nat) cpu, WF cpu -> on_ioxr (op2i dec) cpu ->
+  1 <= Z.of_nat n <= 256 -> g_BC_Hi cpu = u8 (Z.of_nat n) ->
+  (forall j, (j < n)%nat -> biter dec j (regw (g_HL cpu)) <> g_PC cpu /\ biter dec j (regw (g_HL cpu)) <> inc16 (g_PC cpu)) ->
+  let cpu' := iter n cpu in
+  regw (g_HL cpu') = biter dec n (regw (g_HL cpu)) /\ g_BC_Hi cpu' = 0 /\ g_BC_Lo cpu' = g_BC_Lo cpu /\
+  ram (g_W cpu') = fill dec n (ram (g_W cpu)) (regw (g_HL cpu)) (inputs (g_W cpu)) /\
+  inputs (g_W cpu') = skipn n (inputs (g_W cpu)) /\
+  g_PC cpu' = u16 (g_PC cpu + 2) /\
+  (forall k, (k < n)%nat -> g_PC (iter k cpu) = g_PC cpu).
+Proof.
+  intros dec n cpu H Hon Hn Hb Hd. cbv zeta. rewrite iter_ok by exact H.
+  destruct (inxr_run impl_unspec dec n cpu H Hon Hn Hb Hd) as (A & B & C & D & E & F & G).
+  repeat split; try assumption. intros k Hk. rewrite iter_ok by exact H. apply G, Hk.
+Qed.
+Print Assumptions C09_inir_indr_whole_operation.
